@@ -927,6 +927,14 @@ class Block(composites.Composite):
             pass
         self._updatePitchComponent(c)
 
+    def insert(self, index, c):
+        """Insert a component at a position; the block's geometry caches follow as for ``add``."""
+        composites.Composite.insert(self, index, c)
+
+        self.derivedMustUpdate = True
+        self.clearCache()
+        self._updatePitchComponent(c)
+
     def removeAll(self, recomputeAreaFractions=True):
         for c in list(self):
             self.remove(c, recomputeAreaFractions=False)
